@@ -201,7 +201,9 @@ pub fn gen_utf8(rng: &mut Rng, max: usize) -> String {
         return gen_ascii(rng, max);
     }
     let pool = ['a', 'Z', '0', ' ', '=', ':', 'é', 'ß', 'Ж', '中', '🖨', '\u{0}', '\n', '~'];
-    let n = rng.usize(0, 12);
+    // mostly a handful of characters; with a generous bound sometimes a long run of multi-byte characters (text
+    // beyond the 1023-octet RFC limit, character boundaries at every offset mod 2, 3 and 4)
+    let n = if max >= 256 && rng.chance(1, 3) { rng.usize(max / 8, max) } else { rng.usize(0, 12) };
     let mut s = String::new();
     for _ in 0..n {
         let c = *rng.pick(&pool);
